@@ -143,6 +143,19 @@ CHECKS = {
              'VALID-UGRID-MESH. shapely validity / union themselves: bounded only.',
         technique='AST-generated verification conditions over the real source at Skolem cells (functional arrays, selection theory), z3; bounded native oracle comparison',
         design_ref='Part III C06'),
+    'C02': dict(
+        category='proof',
+        text='Every accessor is tied to the same cell(n): polygons (5 grid + 3 mesh configurations, shared with C06: slot n is '
+             'built from cell n, holes keep their slot), face_centres of CFGrid1D (meshgrid/flatten), CFGrid2D / SHOC simple / '
+             'ArakawaC (ravel of the coordinate variables) and UGRID (face_x / face_y, held either way): centre n is the '
+             'centre of cell n; selector_for_index(wind_index(n)) addresses cell n on every grid kind incl. edges and nodes; '
+             'the STRtree is built once over the full polygon array object; ravel of variables whose grid dimensions come '
+             'in either order (with and without other dimensions) lists cells in linear order (shared with C03). '
+             'select_index values, spatial-index hits and the deprecated spatial_index are bounded natively.',
+        note=TRUST + 'Assumed: as C06 and C03, NP-MESHGRID, NP-COLUMN-STACK, XR-SQUEEZE, SH-STRTREE-QUERY. UGRID face centres computed '
+             'from polygon centroids (no face_x / face_y): bounded only.',
+        technique='AST-generated verification conditions over the real source at Skolem cells, z3; bounded native cross-check of all accessors cell by cell',
+        design_ref='Part III C02'),
 }
 
 NOT_YET = 'check not built yet (work in progress, see DESIGN.md)'
